@@ -468,6 +468,13 @@ def r6(ctx):
     c20.r3(ctx)
 
 
+def r7(ctx):
+    # a call that is not re-phased must lose its old phase: the kill set of C09 decides this clause of C04 as well
+    from rules import c09
+
+    c09.r2(ctx)
+
+
 RULES = [
     ("C04.R1", "record conservation: generator, parking, chromosome loops", r1),
     ("C04.R2", "store confinement: only the phase encoding of a call is assigned", r2),
@@ -475,7 +482,8 @@ RULES = [
     ("C04.R4", "phased only if het and supported; skip guards dominate", r4),
     ("C04.R5", "header: removals confined, everything else adds", r5),
     ("C04.R6", "GT changes are reported and imply --distrust-genotypes", r6),
+    ("C04.R7", "old phase information is removed from every target call that is not re-phased", r7),
 ]
 # instance floors: about 60% of the instances confirmed by hand on the reference tree -- a rule that suddenly matches far fewer
 # sites fails the run (exit 2); a clean-up that merges two sites into one does not
-FLOORS = {"C04.R1": 15, "C04.R2": 5, "C04.R3": 1, "C04.R4": 6, "C04.R5": 3, "C04.R6": 3}
+FLOORS = {"C04.R1": 15, "C04.R2": 5, "C04.R3": 1, "C04.R4": 6, "C04.R5": 3, "C04.R6": 3, "C04.R7": 4}
